@@ -352,13 +352,16 @@ class C10(F.PropCheck):
         for (e, t, edges, st) in tl:
             if e[0] != 'CB': cmd_since = True
             if prev_step == 0 and st['step'] > 0: started = t; cmd_since = False
-            if prev_step > 0 and st['step'] == 0 and e[0] == 'CB' and started is not None and not cmd_since:
+            # the step counter only grows 1 -> 2 -> 3 while a calibration runs: any decrease inside a callback is its end (also when a new
+            # calibration is started in the same callback because the stored times are not usable)
+            if prev_step > 0 and st['step'] < prev_step and e[0] == 'CB' and started is not None and not cmd_since:
                 ok_times = 500 <= st['aot'] <= 590000 and 500 <= st['act'] <= 590000
                 good = ok_times and st['pos'] == 100 and not st['up_on'] and not st['down_on'] and not (st['flags'] & FLAG_FAILED)
                 failed = (st['flags'] & FLAG_FAILED) and not st['up_on'] and not st['down_on'] and st['aot'] == 0 and st['act'] == 0 and not known(st['pos'])
+                if st['step'] > 0: good = good and False      # restarted at once: the result was not accepted as a finished calibration
                 if not (good or failed):
-                    v.append('auto-calibration ended at %d us with times %d/%d, position %d, flags %#x, outputs %d%d: neither the success nor the failure outcome' %
-                             (t, st['aot'], st['act'], st['pos'], st['flags'], st['up_on'], st['down_on']))
+                    v.append('auto-calibration ended at %d us with times %d/%d, position %d, flags %#x, outputs %d%d%s: neither the success nor the failure outcome' %
+                             (t, st['aot'], st['act'], st['pos'], st['flags'], st['up_on'], st['down_on'], ', and a new calibration started at once' if st['step'] > 0 else ''))
             prev_step = st['step']
         # ---- (2b) an auto-calibration in progress always has an output energised or its delayed trigger pending (the pauses between the
         # steps are bridged by the trigger); "step > 0, both outputs off, nothing pending" after a callback can never end: stuck
